@@ -42,6 +42,11 @@ CHECKS = {
    text="664 generated compound files quick / 1657 thorough (sector size 512/4096; stream sizes around the 64-byte mini sector and 4096-byte cutoff; mini stream absent/present/exactly one sector; free-sector patterns; directory sizes at sector multiples; case-colliding, MSI-encoded and 31-unit names; nested storage; FAT exactly full; DIFAT growth) plus dummy.msi x all histories of depth <=3 (thorough 4) over 8 insert/replace operations on the real comdoc + InsertMSISignature code: 250k states quick, 5.8M thorough. After every step the harness-owned validator checks the whole container, pre-existing streams/storages are byte- and metadata-identical, DigestMsiTar(MsiToTar(f)) == DigestMSI(f) == reference imprint, and 132 full-pipeline sign/re-sign/verify runs.",
    note="Trusted: gen/cfbgen writer+validator (self-tested with 23 seeded corruptions each run; dummy.msi from Microsoft tooling validates cleanly), the harness reference MSI digest. Not covered: storages nested deeper than one level, v4 DIFAT growth (needs ~446 MiB), files > 2 GiB.",
    ref="4/C18"),
+ "C06": dict(level="model_checking", engine="E2 fault enumeration (mc.Explore) + E1 cooperative scheduler (mc.Sched) on the real server handler",
+   technique="stateless exhaustive exploration: all fault combinations over audit-sink operations for all short request histories, and all interleavings up to a preemption bound of concurrent /sign handlers under a cooperative scheduler, against an audit-file/response bijection oracle",
+   text="(a) every history of <=3 requests x 4 sink configurations x every combination of <=2 (thorough 4) injected faults over the audit file's open/write/close (in-memory vos file system substituted for package os in lib/audit by overlay); (b) every interleaving with <=3 preemptions of 2 concurrent /sign handlers and <=2 of 3 (thorough 4/3), scheduling points at every hooked mutex, scripted-token and audit-file operation of the real server; (c) the standalone pipeline x open/write faults. Oracle: successful responses <-> audit lines bijection, record present in the sink before the first response byte, every line one complete JSON object, record fields = request's key/type/digest/client, no signature bytes when a sink failed.",
+   note="Trusted: vsync/vos/vtime shims and mc.Sched (unit-tested: finds a lost update with 1 preemption, a lock-order deadlock with 2), scripted token. O_APPEND modelled as atomic positioned append. AMQP only as 'connection refused'. Memory orderings weaker than sequential consistency are not modelled.",
+   ref="4/C06"),
 }
 NOT_YET = {}
 ALL = ["C%02d" % i for i in range(1, 21)]
